@@ -215,6 +215,11 @@ func (t *Transport) decodeFromWithCompression(rd io.Reader) (int, []byte, error)
 	if err := frd.Close(); err != nil {
 		return 0, nil, err
 	}
+	// The end of the DEFLATE stream is not the end of the WebSocket message for the backend
+	// (an empty final frame may follow): read the message to EOF.
+	if _, err := io.Copy(io.Discard, ird); err != nil {
+		return 0, nil, err
+	}
 	return ird.ReadBytes, m, nil
 }
 
@@ -233,6 +238,11 @@ func (t *Transport) decodeFromWithContextTakeover(rd io.Reader) (int, []byte, er
 		t.readWindowBuf.Next(t.readWindowBuf.Len() - t.compressConfig.WindowSize())
 	}
 	if err := frd.Close(); err != nil {
+		return 0, nil, err
+	}
+	// The end of the DEFLATE stream is not the end of the WebSocket message for the backend
+	// (an empty final frame may follow): read the message to EOF.
+	if _, err := io.Copy(io.Discard, ird); err != nil {
 		return 0, nil, err
 	}
 	return ird.ReadBytes, m, nil
